@@ -22,8 +22,9 @@ GEN_INVARIANTS = ["GenShape", "GenValid", "GenStrict", "NormalIdem", "DeviationI
 # A tier is a list of passes (roots, K, KV, shards):  K = refinement depth, variants are taken
 # from states of depth < KV.  All shards of all passes run in one pool.
 TIERS = {
-    "quick": [dict(roots="all", K=1, KV=1, shards=12),
+    "quick": [dict(roots="all", K=1, KV=1, shards=10),
               dict(roots="response", K=2, KV=0, shards=6),
+              dict(roots="unionholder", K=2, KV=0, shards=8),
               dict(roots="alias", K=3, KV=0, shards=2)],
     "thorough": [dict(roots="all", K=2, KV=2, shards=32),
                  dict(roots="response", K=3, KV=0, shards=24),
